@@ -32,3 +32,40 @@ pub mod alloc {
         pub struct Vec<T>(pub core::marker::PhantomData<T>);
     }
 }
+
+// ---- user types whose paths look like the std paths the name printer rewrites -----------
+
+macro_rules! lookalike {
+    ($m:ident, $n:ident) => {
+        pub mod $m {
+            #[derive(Clone, Debug, Default)]
+            pub struct $n<T = ()>(pub core::marker::PhantomData<T>);
+        }
+    };
+}
+
+// <crate>::vec::Vec, <crate>::option::Option, … (the layout of e.g. `heapless::vec::Vec`)
+lookalike!(vec, Vec);
+lookalike!(option, Option);
+lookalike!(string, String);
+lookalike!(boxed, Box);
+lookalike!(result, Result);
+
+/// <crate>::core::option::Option, <crate>::core::result::Result
+pub mod core_like {
+    pub mod core {
+        lookalike!(option, Option);
+        lookalike!(result, Result);
+    }
+    pub mod alloc {
+        lookalike!(boxed, Box);
+        lookalike!(string, String);
+        lookalike!(vec, Vec);
+    }
+}
+
+/// user types at the crate root named like the std ones
+#[derive(Clone, Debug, Default)]
+pub struct Vec<T = ()>(pub core::marker::PhantomData<T>);
+#[derive(Clone, Debug, Default)]
+pub struct Option<T = ()>(pub core::marker::PhantomData<T>);
